@@ -11,6 +11,11 @@ TRUST = ("trusted base: rustc's MIR dump of the current tree, the mirsym interpr
 
 # id -> (level text, note, design ref)
 CLAIMED = {
+    "C04": ("ONE CLAUSE ONLY: serialization fails with an unresolved-placeholder error exactly when a placeholder is present, and the debug serializer never fails. Bodies of <= N "
+            "instructions (quick 2, thorough 3) built from the public structs (gates, MEASURE, FENCE, RESET q, LABEL, JUMP, JUMP-WHEN, JUMP-UNLESS) with every qubit a solver-chosen "
+            "u64 or a placeholder and every target a label or a placeholder: the real Quil::to_quil / to_quil_or_debug of each instruction and of the program. The clauses about "
+            "the serialized text parsing back to an equivalent program need the lexer and are NOT covered.",
+            TRUST + "; round-trip clauses outside the claim; core::fmt is a library model", "5/C04, 9.1"),
     "C12": ("Every expression tree of the quick space (18 393 trees: depth <= 2 with at most one compound operand per operator, plus both operands compound over a small inner "
             "alphabet; literals 0, 1, 2; variables x, y; one memory cell) resp. depth <= 2 over the full alphabet (literals 0, 1, -1, 2, 0.5, pi; all five functions; both prefix "
             "operators): the real simplifier is executed on the tree and z3 decides, for ALL complex values of the variables and all real values of the memory cell on which the "
@@ -110,7 +115,11 @@ CLAIMED = {
             TRUST + "; expansion / simplify / placeholder operations are outside the history alphabet", "5/C10"),
 }
 
+TEXT_TIER = ("needs printer + lexer + parser in one path: the printed text has symbolic segments and the lexer (nom string combinators over LocatedSpan<&str>, lexical number "
+             "parsing) cannot be executed symbolically with the string model within reach (concrete or finite-alphabet strings); making every path concrete first would be "
+             "enumeration of concrete runs, not a solver verdict, so no check is registered (DESIGN.md section 9.1)")
 NA_FIXED = {
+    "C02": TEXT_TIER, "C03": TEXT_TIER, "C04": TEXT_TIER, "C07": TEXT_TIER,
     "C14": "dense Complex64 linear algebra through ndarray (kron/dot on 2^n x 2^n matrices, sin/cos of symbolic reals): products of symbolic reals and a wholesale ndarray model would be needed; out of reach of the available solvers and Kani (ICE on once_cell statics)",
     "C15": "same computation as C14 (ndarray matrix products, lifting, log2) — not encodable within reach; see DESIGN.md section 6",
     "C32": "transcendental floating point sample generation (erf, exp, cos, powi) in loops over the sample count; only the length kernel is encodable and it covers one sentence of the property",
